@@ -449,6 +449,12 @@ type scanLoop struct {
 	defaultKind string // what happens for every other terminal: token | error | skip | mixed
 	eofPending  bool   // an evaluation site exists on the end-of-input path (pending lexeme is not lost)
 	ok          bool
+	eofPaths    []*scanPath
+	outFn       *ssa.Function // the function that decides the outcome from the evaluated token's terminal
+	outVal      ssa.Value     // the token value there
+	pathsDone      bool // the paths through one iteration were enumerated (the end-of-input clauses can be decided)
+	classUndecided bool // the outcome classification met a shape it does not understand
+	discards    bool          // some dead-transition path in the start state consumes the rune and restarts
 	flagged     bool          // the scan function returns (token, isToken, error) and a driver loops over it
 	driver      *ssa.Function // the function looping over a flagged scan function (the public NextToken)
 	driverOK    bool
@@ -480,14 +486,29 @@ func wrapperOf(callee *ssa.Function, evalObj types.Object) (int, *ssa.Call) {
 	return idx, inner
 }
 
+// scanPath is one way through the body of the scan loop, from the read of the next rune to an evaluation, a return, or the
+// next iteration.
+type scanPath struct {
+	hasErr   bool // Next()'s error was non-nil on this path
+	errNil   bool
+	dead     bool // the transition function returned the error state on this path
+	alive    bool
+	eofTest  bool // the error was tested to be io.EOF (true branch)
+	pending  bool // the loop-carried state was tested to be different from 0 (true branch)
+	retracts int
+	skips    int  // Skip() calls on the path (a consumed, discarded rune)
+	atStart  bool // the loop-carried state was tested to be 0 (true branch)
+	site     *evalSite // evaluation reached (nil if none)
+	end      string    // eval | return | loop | other
+	endPos   token.Pos
+	lastBlk  *ssa.BasicBlock
+}
+
 func analyseScanLoop(c *Ctx, rule string, fn *ssa.Function, advObj, evalObj types.Object, errorState int64) *scanLoop {
 	sl := &scanLoop{fn: fn}
 	pos := fn.Pos()
-	if fn.Signature.Results().Len() == 3 {
-		sl.flagged = true
-		checkSkipDriver(c, rule, sl)
-	}
 	var advs []*ssa.Call
+	siteOf := map[ssa.Instruction]*evalSite{}
 	allCalls(fn, func(call ssa.CallInstruction) {
 		if methodNameOf(call) == "Retract" {
 			sl.retract = append(sl.retract, call)
@@ -501,16 +522,21 @@ func analyseScanLoop(c *Ctx, rule string, fn *ssa.Function, advObj, evalObj type
 			advs = append(advs, cv)
 		}
 		if f != nil && types.Object(f) == evalObj {
-			sl.sites = append(sl.sites, &evalSite{call: cv, state: cv.Call.Args[len(cv.Call.Args)-1], outFn: fn, evalCall: cv})
+			st := &evalSite{call: cv, state: cv.Call.Args[len(cv.Call.Args)-1], outFn: fn, evalCall: cv}
+			sl.sites = append(sl.sites, st)
+			siteOf[cv] = st
 			return
 		}
 		if callee := cv.Call.StaticCallee(); callee != nil && callee != fn && callee.Pkg == fn.Pkg {
 			if pi, inner := wrapperOf(callee, evalObj); inner != nil {
-				sl.sites = append(sl.sites, &evalSite{call: cv, state: cv.Call.Args[pi], outFn: callee, evalCall: inner})
+				st := &evalSite{call: cv, state: cv.Call.Args[pi], outFn: callee, evalCall: inner}
+				sl.sites = append(sl.sites, st)
+				siteOf[cv] = st
 			}
 		}
 	})
-	if !c.Check(rule, "scan loop: one transition call", pos, len(advs) == 1, fmt.Sprintf("%d calls of the transition function in the scan loop", len(advs))) {
+	if len(advs) != 1 {
+		c.Undecided(rule, "scan loop: one transition call", pos, fmt.Sprintf("%d calls of the transition function in the scan function", len(advs)))
 		return sl
 	}
 	sl.adv = advs[0]
@@ -525,14 +551,20 @@ func analyseScanLoop(c *Ctx, rule string, fn *ssa.Function, advObj, evalObj type
 				sawInit = true
 			case e == ssa.Value(sl.adv):
 				sawNext = true
+			case e == ssa.Value(phi):
+				// a path round the loop that keeps the state (none in a scanner that consumes a rune per iteration)
 			default:
 				okPhi = false
 			}
 		}
 		okPhi = okPhi && sawInit && sawNext
 	}
+	if phi == nil {
+		c.Undecided(rule, "scan loop: the state fed to the transition function is loop-carried from start state 0", sl.adv.Pos(), "the first argument of the transition function is not a loop-carried variable")
+		return sl
+	}
 	if !c.Check(rule, "scan loop: the state fed to the transition function is loop-carried from start state 0", sl.adv.Pos(), okPhi,
-		"the first argument of the transition function is not phi[0, previous result]") {
+		"the state fed to the transition function is not {0 at the start, the previous result afterwards}") {
 		return sl
 	}
 	sl.curr = phi
@@ -555,101 +587,306 @@ func analyseScanLoop(c *Ctx, rule string, fn *ssa.Function, advObj, evalObj type
 	c.Check(rule, "scan loop: the read error is tested before the rune is used", sl.adv.Pos(), sl.nextErr != nil && controlledNil(sl.adv.Block(), sl.nextErr, false),
 		"the transition function runs on a path where Next()'s error was not tested to be nil")
 
-	if !c.Check(rule, "scan loop: the evaluation method is called", pos, len(sl.sites) >= 1, "no call of the evaluation method (directly or through a wrapper)") {
+	if len(sl.sites) == 0 {
+		c.Fail(rule, "scan loop: the evaluation method is called", pos, "no call of the evaluation method (directly or through a wrapper) in the scan function")
 		return sl
 	}
-	nDead := 0
-	for _, st := range sl.sites {
-		b := st.call.Block()
-		switch {
-		case controlledByEq(b, sl.adv, errorState):
-			st.context = "dead"
-			nDead++
-		case sl.nextErr != nil && controlledNil(b, sl.nextErr, true):
-			st.context = "eof"
-			sl.eofPending = true
-		default:
-			st.context = "other"
-		}
-		key := "evaluation on " + st.context + " path"
-		c.Check(rule, "scan loop: "+key+": the state evaluated is the one before the failing step", st.call.Pos(), st.state == ssa.Value(sl.curr),
-			"the evaluation does not receive the loop-carried current state")
-		// retracts dominating this site
-		nR := 0
-		for _, r := range sl.retract {
-			rb := r.Block()
-			if (rb == b && instrIndex(r.(ssa.Instruction)) < instrIndex(st.call)) || (rb != b && rb.Dominates(b)) {
-				nR++
-			}
-		}
-		switch st.context {
-		case "dead":
-			c.Check(rule, "scan loop: "+key+": exactly one Retract precedes the evaluation", st.call.Pos(), nR == 1,
-				fmt.Sprintf("%d Retract calls dominate the evaluation on the dead-transition path (the rune that did not belong to the token must be given back exactly once)", nR))
-		case "eof":
-			c.Check(rule, "scan loop: "+key+": nothing is retracted (no rune was read)", st.call.Pos(), nR == 0,
-				"a Retract precedes the evaluation although Next() failed: a rune of the pending lexeme would be given back")
-		default:
-			c.Fail(rule, "scan loop: evaluation happens only on a dead transition or at end of input", st.call.Pos(),
-				fmt.Sprintf("the evaluation is guarded neither by next == %d nor by the read error", errorState))
-		}
-	}
-	c.Check(rule, "scan loop: exactly one evaluation site on the dead-transition path", pos, nDead == 1, fmt.Sprintf("%d evaluation sites guarded by next == %d", nDead, errorState))
-	for _, r := range sl.retract {
-		c.Check(rule, "scan loop: Retract only on a dead transition", r.Pos(), controlledByEq(r.Block(), sl.adv, errorState), "a Retract that is not guarded by the dead-transition test")
-	}
+	c.Pass(rule, "scan loop: the evaluation method is called", pos, "")
 
-	// outcomes: per distinct function deciding them
-	done := map[*ssa.Function]bool{}
-	for _, st := range sl.sites {
-		if st.outFn != fn {
-			// the wrapper's results must be returned unchanged by the scan function
-			passes := false
-			for _, r := range *st.call.Referrers() {
-				if ex, ok := r.(*ssa.Extract); ok {
-					for _, rr := range *ex.Referrers() {
-						if _, ok := rr.(*ssa.Return); ok {
-							passes = true
-						}
-					}
+	// ---- paths through one iteration ----
+	header := phi.Block()
+	start := nextCall.(*ssa.Call).Block()
+	var paths []*scanPath
+	var walk func(b *ssa.BasicBlock, from int, p scanPath, depth int)
+	walk = func(b *ssa.BasicBlock, from int, p scanPath, depth int) {
+		if depth > 40 || len(paths) > 400 {
+			p.end = "other"
+			paths = append(paths, &p)
+			return
+		}
+		p.lastBlk = b
+		for i := from; i < len(b.Instrs); i++ {
+			in := b.Instrs[i]
+			if ci, ok := in.(ssa.CallInstruction); ok {
+				if methodNameOf(ci) == "Retract" {
+					p.retracts++
+				}
+				if methodNameOf(ci) == "Skip" {
+					p.skips++
+				}
+				if st, ok := siteOf[in]; ok {
+					p.site, p.end, p.endPos = st, "eval", in.Pos()
+					q := p
+					paths = append(paths, &q)
+					return
 				}
 			}
-			c.Check(rule, "scan loop: the wrapper's result is returned unchanged", st.call.Pos(), passes, "the scan function does not return the evaluation wrapper's results")
+			switch t := in.(type) {
+			case *ssa.Return:
+				p.end, p.endPos = "return", t.Pos()
+				q := p
+				paths = append(paths, &q)
+				return
+			case *ssa.Jump:
+				if b.Succs[0] == header || b.Succs[0] == start {
+					p.end = "loop"
+					q := p
+					paths = append(paths, &q)
+					return
+				}
+				walk(b.Succs[0], 0, p, depth+1)
+				return
+			case *ssa.If:
+				for k, succ := range b.Succs {
+					q := p
+					pol := k == 0
+					cond := t.Cond
+					if sl.nextErr != nil {
+						if nn, ok := isNilCheck(cond, sl.nextErr); ok {
+							if nn == pol {
+								q.hasErr = true
+							} else {
+								q.errNil = true
+							}
+						}
+					}
+					if n, eq, ok := eqConst(cond, sl.adv); ok && n == errorState {
+						if eq == pol {
+							q.dead = true
+						} else {
+							q.alive = true
+						}
+					}
+					if n, eq, ok := eqConst(cond, sl.curr); ok && n == 0 {
+						if eq != pol {
+							q.pending = true
+						} else {
+							q.atStart = true
+						}
+					}
+					if call, ok := cond.(*ssa.Call); ok && pol && staticCalleeName(call) == "errors.Is" {
+						if g, ok := rootGlobal(call.Call.Args[1]); ok && g == "io.EOF" {
+							q.eofTest = true
+						}
+					}
+					if bo, ok := cond.(*ssa.BinOp); ok && ((bo.Op == token.EQL && pol) || (bo.Op == token.NEQ && !pol)) {
+						if g, ok := rootGlobal(bo.Y); ok && g == "io.EOF" {
+							q.eofTest = true
+						}
+					}
+					if succ == header || succ == start {
+						q.end = "loop"
+						qq := q
+						paths = append(paths, &qq)
+						continue
+					}
+					walk(succ, 0, q, depth+1)
+				}
+				return
+			}
 		}
+	}
+	walk(start, instrIndex(nextCall.(ssa.Instruction))+1, scanPath{}, 0)
+	c.Extra("scan_loop_paths", len(paths))
+	sl.pathsDone = true
+
+	nDeadEval := 0
+	for _, p := range paths {
+		switch {
+		case p.end == "eval" && p.dead:
+			nDeadEval++
+			p.site.context = "dead"
+			c.Check(rule, "scan loop: evaluation on dead path: the state evaluated is the one before the failing step", p.endPos, p.site.state == ssa.Value(sl.curr),
+				"the evaluation does not receive the loop-carried current state")
+			c.Check(rule, "scan loop: evaluation on dead path: exactly one Retract precedes the evaluation", p.endPos, p.retracts == 1,
+				fmt.Sprintf("%d Retract calls precede the evaluation on the dead-transition path (the rune that did not belong to the token must be given back exactly once)", p.retracts))
+		case p.end == "eval" && p.hasErr:
+			p.site.context = "eof"
+			sl.eofPending = true
+			sl.eofPaths = append(sl.eofPaths, p)
+			c.Check(rule, "scan loop: evaluation on eof path: the state evaluated is the one before the failing step", p.endPos, p.site.state == ssa.Value(sl.curr),
+				"the evaluation does not receive the loop-carried current state")
+			c.Check(rule, "scan loop: evaluation on eof path: nothing is retracted (no rune was read)", p.endPos, p.retracts == 0,
+				"a Retract precedes the evaluation although Next() failed: a rune of the pending lexeme would be given back")
+		case p.end == "eval":
+			p.site.context = "other"
+			c.Fail(rule, "scan loop: evaluation happens only on a dead transition or at end of input", p.endPos,
+				fmt.Sprintf("an evaluation is reached on a path that is guarded neither by next == %d nor by the read error", errorState))
+		case p.dead && p.end != "eval" && p.atStart && p.skips == 1 && p.retracts == 0:
+			// a rune that no token starts with is consumed and dropped in the start state (blank discard; the property that
+			// allows it decides which runes): nothing is pending, so there is nothing to evaluate
+			sl.discards = true
+		case p.dead && p.end != "eval":
+			c.Fail(rule, "scan loop: a dead transition ends the lexeme (the state before it is evaluated)", p.endPos,
+				"a path on which the transition function reported a dead transition "+map[string]string{"loop": "continues with the next rune", "return": "returns", "other": "was not followed to its end"}[p.end]+" without evaluating the state")
+		case p.retracts > 0 && !p.dead:
+			c.Fail(rule, "scan loop: Retract only on a dead transition", p.endPos, "a Retract on a path that is not guarded by the dead-transition test")
+		case p.alive && p.end == "return" && !p.hasErr:
+			c.Fail(rule, "scan loop: a live transition continues with the next rune", p.endPos, "the scan function returns although the transition function found a next state")
+		}
+	}
+	c.Check(rule, "scan loop: an evaluation site on the dead-transition path", pos, nDeadEval >= 1, fmt.Sprintf("%d paths guarded by next == %d reach an evaluation", nDeadEval, errorState))
+
+	// outcomes: decided where the evaluated token's terminal is compared; that may be the scan function itself, a wrapper
+	// around the evaluation, or a caller to which the token is returned
+	done := map[*ssa.Function]bool{}
+	for _, st := range sl.sites {
 		if done[st.outFn] {
 			continue
 		}
 		done[st.outFn] = true
-		classifyAfterEval(c, rule, sl, st)
+		hfn, hval := followToken(st.outFn, ssa.Value(st.evalCall), 0)
+		if hfn == nil {
+			c.Undecided(rule, "scan loop: where the evaluated token's terminal decides the outcome", st.call.Pos(), "the token is neither classified where it is evaluated nor returned to a caller that classifies it")
+			continue
+		}
+		sl.outFn, sl.outVal = hfn, hval
+		if hfn.Signature.Results().Len() == 3 {
+			sl.flagged = true
+			checkSkipDriver(c, rule, sl, flaggedRoot(hfn))
+		}
+		classifyAfterEval(c, rule, sl, hfn, hval)
 	}
-	sl.ok = true
+	sl.ok = !sl.classUndecided && sl.outFn != nil
 	return sl
 }
 
-// classifyAfterEval walks the comparison chain on the evaluated token's Terminal.
-func classifyAfterEval(c *Ctx, rule string, sl *scanLoop, st *evalSite) {
-	fn := st.outFn
-	eval := st.evalCall
-	isTerm := func(v ssa.Value) bool {
-		for _, r := range rootsOf(fn, v, nil) {
-			if fa, ok := r.(*ssa.FieldAddr); ok && fieldName(fa) == "Terminal" {
-				if a, ok := fa.X.(*ssa.Alloc); ok {
-					for _, ref := range *a.Referrers() {
-						if s2, ok := ref.(*ssa.Store); ok && s2.Addr == a && s2.Val == ssa.Value(eval) {
-							return true
-						}
+// followToken: the function in which the terminal of the token value v (a call of the evaluation method, or the first result
+// of a call that returns it) is compared with constants. If fn itself does not compare it but returns it, the callers of fn
+// in the same package are followed.
+func followToken(fn *ssa.Function, v ssa.Value, depth int) (*ssa.Function, ssa.Value) {
+	if depth > 3 {
+		return nil, nil
+	}
+	if comparesTerminal(fn, v) {
+		return fn, v
+	}
+	// returned as result #0?
+	returned := false
+	for _, b := range fn.Blocks {
+		ret, ok := b.Instrs[len(b.Instrs)-1].(*ssa.Return)
+		if !ok || len(ret.Results) == 0 {
+			continue
+		}
+		for _, r := range rootsOf(fn, retOperand(ret, 0), func(x ssa.Value) bool { return x == v }) {
+			if r == v {
+				returned = true
+			}
+		}
+	}
+	if !returned {
+		return nil, nil
+	}
+	for _, g := range allFuncsOfPkgDeep(fn.Pkg) {
+		if g == fn {
+			continue
+		}
+		var found *ssa.Function
+		var fv ssa.Value
+		allCalls(g, func(call ssa.CallInstruction) {
+			cv, ok := call.(*ssa.Call)
+			if !ok || cv.Call.StaticCallee() != fn || found != nil {
+				return
+			}
+			var tok ssa.Value = cv
+			if fn.Signature.Results().Len() > 1 {
+				tok = nil
+				for _, r := range *cv.Referrers() {
+					if ex, ok := r.(*ssa.Extract); ok && ex.Index == 0 {
+						tok = ex
 					}
 				}
 			}
-			if f, ok := r.(*ssa.Field); ok && f.X == ssa.Value(eval) {
+			if tok == nil {
+				return
+			}
+			if hf, hv := followToken(g, tok, depth+1); hf != nil {
+				found, fv = hf, hv
+			}
+		})
+		if found != nil {
+			return found, fv
+		}
+	}
+	return nil, nil
+}
+
+// comparesTerminal: fn contains a comparison of the Terminal field of token value v with a constant.
+func comparesTerminal(fn *ssa.Function, v ssa.Value) bool {
+	found := false
+	for _, b := range fn.Blocks {
+		for _, in := range b.Instrs {
+			bo, ok := in.(*ssa.BinOp)
+			if !ok || (bo.Op != token.EQL && bo.Op != token.NEQ) {
+				continue
+			}
+			for _, side := range []ssa.Value{bo.X, bo.Y} {
+				if isTerminalOf(fn, side, v) {
+					found = true
+				}
+			}
+		}
+	}
+	return found
+}
+
+// isTerminalOf: x is the Terminal field of the token value v (directly, or through the local the token was stored in).
+func isTerminalOf(fn *ssa.Function, x ssa.Value, v ssa.Value) bool {
+	for _, r := range rootsOf(fn, x, nil) {
+		if fa, ok := r.(*ssa.FieldAddr); ok && fieldName(fa) == "Terminal" {
+			if a, ok := fa.X.(*ssa.Alloc); ok {
+				for _, ref := range *a.Referrers() {
+					if s2, ok := ref.(*ssa.Store); ok && s2.Addr == ssa.Value(a) && s2.Val == v {
+						return true
+					}
+				}
+			}
+		}
+		if f, ok := r.(*ssa.Field); ok && f.X == v {
+			if st, ok := f.X.Type().Underlying().(*types.Struct); ok && st.Field(f.Field).Name() == "Terminal" {
+				return true
+			}
+		}
+	}
+	return false
+}
+
+// classifyAfterEval walks the comparison chain on the evaluated token's Terminal in fn, where eval is the token value.
+func classifyAfterEval(c *Ctx, rule string, sl *scanLoop, fn *ssa.Function, eval ssa.Value) {
+	evalIn, _ := eval.(ssa.Instruction)
+	if evalIn == nil {
+		c.Undecided(rule, "scan loop: outcome classification", fn.Pos(), "the token value is not an instruction")
+		return
+	}
+	// the call that produced the token in fn (the evaluation itself, or the call of the function that returned it)
+	var srcCall *ssa.Call
+	switch x := eval.(type) {
+	case *ssa.Call:
+		srcCall = x
+	case *ssa.Extract:
+		srcCall, _ = x.Tuple.(*ssa.Call)
+	}
+	isTerm := func(v ssa.Value) bool { return isTerminalOf(fn, v, eval) }
+	kinds := map[string]string{} // terminal const -> kind
+	defKinds := map[string]bool{}
+	var walk func(b *ssa.BasicBlock, eq string, neq map[string]bool, depth int)
+	loopsBack := func(b *ssa.BasicBlock) bool {
+		// following unconditional jumps leads back to the block that calls for the next token
+		cur := b
+		for i := 0; i < 12; i++ {
+			if len(cur.Succs) != 1 {
+				return false
+			}
+			cur = cur.Succs[0]
+			if srcCall != nil && cur == srcCall.Block() {
+				return true
+			}
+			if fn == sl.fn && sl.curr != nil && cur == sl.curr.Block() {
 				return true
 			}
 		}
 		return false
 	}
-	kinds := map[string]string{} // terminal const -> kind
-	defKinds := map[string]bool{}
-	var walk func(b *ssa.BasicBlock, eq string, neq map[string]bool, depth int)
 	classifyRet := func(b *ssa.BasicBlock) string {
 		last := b.Instrs[len(b.Instrs)-1]
 		switch v := last.(type) {
@@ -664,8 +901,8 @@ func classifyAfterEval(c *Ctx, rule string, sl *scanLoop, st *evalSite) {
 					return "other"
 				}
 				if constant.BoolVal(k.Value) {
-					for _, r := range rootsOf(fn, v.Results[0], func(x ssa.Value) bool { return x == ssa.Value(eval) }) {
-						if r == ssa.Value(eval) {
+					for _, r := range rootsOf(fn, v.Results[0], func(x ssa.Value) bool { return x == eval }) {
+						if r == eval {
 							return "token"
 						}
 					}
@@ -680,35 +917,54 @@ func classifyAfterEval(c *Ctx, rule string, sl *scanLoop, st *evalSite) {
 				return "other"
 			}
 			if isNilConst(v.Results[1]) {
-				for _, r := range rootsOf(fn, v.Results[0], func(x ssa.Value) bool { return x == ssa.Value(eval) }) {
-					if r == ssa.Value(eval) {
+				for _, r := range rootsOf(fn, v.Results[0], func(x ssa.Value) bool { return x == eval }) {
+					if r == eval {
 						return "token"
 					}
 				}
 				return "other"
 			}
 			if ex, ok := v.Results[1].(*ssa.Extract); ok {
-				if call, ok := ex.Tuple.(*ssa.Call); ok && call.Call.StaticCallee() == sl.fn {
+				if call, ok := ex.Tuple.(*ssa.Call); ok && (call.Call.StaticCallee() == sl.fn || call.Call.StaticCallee() == fn) {
 					return "skip"
 				}
 			}
 			return "error"
 		case *ssa.Jump:
-			// back to the loop header with the state reset to 0
+			// back to the loop header with the state reset to 0 (the scan function skips by itself)
 			t := b.Succs[0]
-			if fn == sl.fn && t == sl.curr.Block() {
+			if fn == sl.fn && sl.curr != nil && t == sl.curr.Block() {
 				for i, p := range t.Preds {
 					if p == b && isConstInt(sl.curr.Edges[i], 0) {
 						return "skip"
 					}
 				}
 			}
+			if loopsBack(b) {
+				return "skip"
+			}
 		}
 		return "other"
+	}
+	record := func(eq, k string) {
+		if eq != "" {
+			if old, ok := kinds[eq]; ok && old != k {
+				kinds[eq] = "mixed"
+			} else {
+				kinds[eq] = k
+			}
+		} else {
+			defKinds[k] = true
+		}
 	}
 	walk = func(b *ssa.BasicBlock, eq string, neq map[string]bool, depth int) {
 		if depth > 64 {
 			defKinds["other"] = true
+			return
+		}
+		if depth > 0 && srcCall != nil && b == srcCall.Block() {
+			// control returns to the call that fetches the next token: this one was skipped
+			record(eq, "skip")
 			return
 		}
 		last := b.Instrs[len(b.Instrs)-1]
@@ -743,11 +999,26 @@ func classifyAfterEval(c *Ctx, rule string, sl *scanLoop, st *evalSite) {
 					}
 					return
 				}
+				// a test of the error that came with the token: the classification applies on the path without an error
+				if srcCall != nil {
+					for _, r := range *srcCall.Referrers() {
+						if ex, ok := r.(*ssa.Extract); ok && ex.Index != 0 && isErr(ex.Type()) {
+							if nn, ok := isNilCheck(ifi.Cond, ex); ok {
+								nilSucc := 1
+								if !nn {
+									nilSucc = 0
+								}
+								walk(b.Succs[nilSucc], eq, neq, depth+1)
+								return
+							}
+						}
+					}
+				}
 			}
 			defKinds["other"] = true
 			return
 		}
-		if _, ok := last.(*ssa.Jump); ok && !(fn == sl.fn && b.Succs[0] == sl.curr.Block()) {
+		if _, ok := last.(*ssa.Jump); ok && !loopsBack(b) && !(fn == sl.fn && sl.curr != nil && b.Succs[0] == sl.curr.Block()) {
 			walk(b.Succs[0], eq, neq, depth+1)
 			return
 		}
@@ -762,7 +1033,9 @@ func classifyAfterEval(c *Ctx, rule string, sl *scanLoop, st *evalSite) {
 			defKinds[k] = true
 		}
 	}
-	walk(eval.Block(), "", map[string]bool{}, 0)
+	// start after the instruction that produced the token: the rest of its block decides
+	walk(evalIn.Block(), "", map[string]bool{}, 0)
+	undecided := false
 	for t, k := range kinds {
 		switch k {
 		case "error":
@@ -771,7 +1044,8 @@ func classifyAfterEval(c *Ctx, rule string, sl *scanLoop, st *evalSite) {
 			sl.skipTerms = append(sl.skipTerms, t)
 		case "token":
 		default:
-			c.Fail(rule, "scan loop: outcome for terminal "+t, eval.Pos(), "after evaluation, terminal "+t+" leads to an outcome the analysis cannot classify ("+k+")")
+			undecided = true
+			c.Undecided(rule, "scan loop: outcome for terminal "+t, evalIn.Pos(), "after evaluation, terminal "+t+" leads to an outcome the analysis cannot classify ("+k+")")
 		}
 	}
 	sort.Strings(sl.errTerms)
@@ -786,8 +1060,16 @@ func classifyAfterEval(c *Ctx, rule string, sl *scanLoop, st *evalSite) {
 	} else {
 		sl.defaultKind = "mixed"
 	}
-	c.Check(rule, "scan loop: every other terminal is returned as the token with a nil error", eval.Pos(), sl.defaultKind == "token",
-		fmt.Sprintf("the default outcome after evaluation is %v", dk))
+	switch {
+	case sl.defaultKind == "token":
+		c.Pass(rule, "scan loop: every other terminal is returned as the token with a nil error", evalIn.Pos(), "")
+	case len(dk) == 1 && (dk[0] == "error" || dk[0] == "skip"):
+		c.Fail(rule, "scan loop: every other terminal is returned as the token with a nil error", evalIn.Pos(), fmt.Sprintf("the default outcome after evaluation is %v", dk))
+	default:
+		undecided = true
+		c.Undecided(rule, "scan loop: every other terminal is returned as the token with a nil error", evalIn.Pos(), fmt.Sprintf("the default outcome after evaluation is %v", dk))
+	}
+	sl.classUndecided = undecided
 }
 
 func constStringOf(k *ssa.Const) string {
@@ -803,8 +1085,7 @@ func constStringOf(k *ssa.Const) string {
 
 // checkSkipDriver: a scan function that returns (token, isToken, error) leaves skipping to its caller. The caller must call it
 // in a loop, return the token and the error exactly when isToken || error != nil, and otherwise call it again.
-func checkSkipDriver(c *Ctx, rule string, sl *scanLoop) {
-	fn := sl.fn
+func checkSkipDriver(c *Ctx, rule string, sl *scanLoop, fn *ssa.Function) {
 	var drivers []*ssa.Function
 	var calls []*ssa.Call
 	for _, m := range fn.Pkg.Members {
@@ -821,7 +1102,8 @@ func checkSkipDriver(c *Ctx, rule string, sl *scanLoop) {
 			}
 		})
 	}
-	if !c.Check(rule, "scan loop: the flagged scan function has exactly one caller (the token loop)", fn.Pos(), len(drivers) == 1, fmt.Sprintf("%d call sites of the scan function", len(drivers))) {
+	if len(drivers) != 1 {
+		c.Undecided(rule, "scan loop: the flagged scan function has exactly one caller (the token loop)", fn.Pos(), fmt.Sprintf("%d call sites of the scan function", len(drivers)))
 		return
 	}
 	d, call := drivers[0], calls[0]
@@ -905,4 +1187,55 @@ func allFuncsOfPkg(p *ssa.Package) []*ssa.Function {
 	}
 	sort.Slice(uniq, func(i, j int) bool { return uniq[i].String() < uniq[j].String() })
 	return uniq
+}
+
+// flaggedRoot: the outermost function that hands the (token, isToken, error) triple of fn on unchanged: a wrapper's callers
+// that return its three results as they are belong to the same flagged chain; the function above them is the token loop.
+func flaggedRoot(fn *ssa.Function) *ssa.Function {
+	cur := fn
+	for depth := 0; depth < 4; depth++ {
+		var up *ssa.Function
+		okAll := true
+		n := 0
+		for _, g := range allFuncsOfPkgDeep(cur.Pkg) {
+			if g == cur {
+				continue
+			}
+			allCalls(g, func(call ssa.CallInstruction) {
+				cv, ok := call.(*ssa.Call)
+				if !ok || cv.Call.StaticCallee() != cur {
+					return
+				}
+				n++
+				if g.Signature.Results().Len() != 3 {
+					okAll = false
+					return
+				}
+				// every extract of the call is returned in place
+				passes := 0
+				for _, r := range *cv.Referrers() {
+					if ex, ok := r.(*ssa.Extract); ok {
+						for _, rr := range *ex.Referrers() {
+							if ret, ok := rr.(*ssa.Return); ok && len(ret.Results) == 3 && ret.Results[ex.Index] == ssa.Value(ex) {
+								passes++
+							}
+						}
+					}
+				}
+				if passes < 3 {
+					okAll = false
+					return
+				}
+				if up != nil && up != g {
+					okAll = false
+				}
+				up = g
+			})
+		}
+		if n == 0 || !okAll || up == nil {
+			return cur
+		}
+		cur = up
+	}
+	return cur
 }
